@@ -316,6 +316,10 @@ def whole_list(f, b, sy, coll, fname):
     only when there is one); a local that is that payload when the list is present and an empty sequence exactly when
     it is absent."""
     t = _unmut(coll)
+    # adaptors that still visit every element
+    while t[0] == "call" and (t[3] or {}).get("name") in ("enumerate", "rev", "peekable", "copied", "cloned", "fuse") \
+            and (t[3] or {}).get("trait") == "std::iter::Iterator" and len(t[2]) == 1:
+        t = _unmut(t[2][0])
     fld = r"^self\.%s$" % re.escape(fname)
     r = render(t)
     if re.match(fld, r):
@@ -343,6 +347,8 @@ def whole_list(f, b, sy, coll, fname):
 def _element_of(t):
     """`next(it)↓Some.0` (the element a `for` loop / `while let` is looking at) -> the term iterated, else None."""
     t = strip_deep(t)
+    while t[0] == "field" and strip_deep(t[1])[0] == "field":       # `(i, x)` of an enumerate()
+        t = strip_deep(t[1])
     if t[0] == "field" and str(t[2]) == "0":
         v = strip_deep(t[1])
         if v[0] == "variant" and v[2] == "Some":
